@@ -138,6 +138,31 @@ def run(R, tier, seed, driver_ok):
                     R.case(('c05', name, kind, 'calibrate_threshold', X.tobytes().hex()[:32]), True, branch=f'calibrate_threshold:{kind}')
                     if not same(t1, t2):
                         R.violation(f'{name}/calibrate_threshold-differs', f'{name}.calibrate_threshold: indices vs formed give thresholds {t1} vs {t2}', case)
+                # ---- the same instance given ANOTHER preprocessor (set_params) and refitted on indicators into it:
+                #      the model and the outputs are those of the formed data of the new preprocessor
+                perm2 = rng.permutation(len(full))
+                pool2 = full[perm2] ; inv2 = np.argsort(perm2)
+                kind2 = ['array', 'list', 'callable'][int(rng.randint(3))]
+                pre2 = zoo.make_preprocessor(kind2, pool2)
+                case2 = dict(case, history=f'fit({kind}) → set_params(preprocessor={kind2}) → fit')
+                R.case(('c05', name, kind, kind2, 'refit-other-preprocessor', X.tobytes().hex()[:32]), True, branch=f'refit:{kind}->{kind2}')
+                try:
+                    with warnings.catch_warnings():
+                        warnings.simplefilter('ignore')
+                        est.set_params(preprocessor=pre2)
+                        est.fit(*((inv2[ia[0]].astype(dt),) + tuple(ia[1:])))
+                        M2 = est.get_mahalanobis_matrix()
+                        xi2 = rng.randint(0, len(pool2), size=5)
+                        tr_idx, tr_formed = est.transform(xi2), est.transform(pool2[xi2])
+                        pi2 = rng.randint(0, len(pool2), size=(5, 2))
+                        pd_idx, pd_formed = est.pair_distance(pi2), est.pair_distance(pool2[pi2])
+                except Exception as e:
+                    R.violation(f'{name}/refit-other-preprocessor-{type(e).__name__}', f'{name}: refit after set_params(preprocessor=…) raised {type(e).__name__}: {str(e)[:150]}', case2)
+                else:
+                    if not same(M2, Mref):
+                        R.violation(f'{name}/refit-other-preprocessor-model', f'{name}: after set_params(preprocessor={kind2}) the refit on indicators differs from the fit on the formed data (max diff {np.abs(M2 - Mref).max():.3g})', case2)
+                    if not same(tr_idx, tr_formed) or not same(pd_idx, pd_formed):
+                        R.violation(f'{name}/refit-other-preprocessor-outputs', f'{name}: after set_params(preprocessor={kind2}) indicators and formed data give different outputs', case2)
             # ---- a raising preprocessor surfaces as PreprocessorError, on fit and on query methods
             bad = zoo.CLASSES[name](preprocessor=Raising(), **params)
             R.case(('c05', name, 'raising', 'fit'), True, branch='raising')
